@@ -504,18 +504,22 @@ fn run_tok(tok: &mut dyn Tok, chunks: &[Vec<u8>], by_decode: bool, tagged: bool)
 struct Ctx {
     out: Out,
     dfa_serial: u64,
+    /// replay: drive the tokenizer the way the recorded run did
+    force_by_decode: Option<bool>,
 }
 
 fn pattern_case(ctx: &mut Ctx, rng: &mut Rng, pats: &[Re], inputs: &[Vec<u8>], forced_chunks: Option<Vec<Vec<u8>>>, exhaustive3: bool) {
-    let name = format!("p{}", ctx.dfa_serial);
+    // the driver keeps one table per name: every pattern set replaces the previous one
+    let name = "cur".to_string();
     ctx.dfa_serial += 1;
     let pats_json: Vec<Value> = pats.iter().map(|p| p.to_json()).collect();
     let pats_show: Vec<String> = pats.iter().map(|p| p.show()).collect();
     let built = guarded(|| {
         let tok = VerifTokenizer::new(pats.iter().map(|p| p.nfa()));
-        tok.dfa()
+        let dfa = tok.dfa();
+        (tok, dfa)
     });
-    let Ok(dfa) = built else {
+    let Ok((proto, dfa)) = built else {
         ctx.out.hist("patterns:compile-panic");
         return;
     };
@@ -536,19 +540,19 @@ fn pattern_case(ctx: &mut Ctx, rng: &mut Rng, pats: &[Re], inputs: &[Vec<u8>], f
             Some(c) => vec![(9, c.clone())],
             None => [0u64, 1, 2, 3, 4, 4].iter().map(|m| (*m, partition(rng, input, *m))).collect(),
         };
-        if exhaustive3 {
+        if exhaustive3 && input.len() <= 14 {
             parts.extend(all_three_pieces(input).into_iter().map(|c| (8, c)));
         }
         let (exp_items, exp_pending) = reference.tokenize(input);
         // O line: the verified Lean specification on the dumped DFA
         let mut whole: Option<Vec<(Option<usize>, Vec<u8>)>> = None;
         for (mode, chunks) in parts {
-            let by_decode = rng.chance(1, 2);
+            let by_decode = ctx.force_by_decode.unwrap_or_else(|| rng.chance(1, 2));
             let input_json = json!({"kind": "patterns", "patterns": pats_json, "show": pats_show,
                 "stream": hex(input), "chunks": chunks_str(&chunks), "by_decode": by_decode});
             set_current(&input_json);
             let run = guarded(|| {
-                let mut tok = VerifTokenizer::new(pats.iter().map(|p| p.nfa()));
+                let mut tok = proto.fresh();
                 run_tok(&mut tok, &chunks, by_decode, true)
             });
             let req = format!("c03 run {name} {}", chunks_str(&chunks));
@@ -967,8 +971,14 @@ fn production_case(ctx: &mut Ctx, rng: &mut Rng, command: bool, stream: &[u8], r
         let run = match run {
             Ok(r) => r,
             Err(()) => {
-                ctx.out.corr(&req, "panic");
-                ctx.out.fail(&format!("{name} tokenizer panicked"), input_json, json!(show_items(&exp_items)), json!("panic"));
+                if events.iter().any(|e| e == "PANIC") {
+                    // a payload decoder panicked (the public decoder panics on the same stream):
+                    // totality is property C02; nothing to compare for C03 on this stream
+                    ctx.out.hist("B:skipped:payload-decoder-panic");
+                } else {
+                    ctx.out.corr(&req, "panic");
+                    ctx.out.fail(&format!("{name} tokenizer panicked"), input_json, json!(show_items(&exp_items)), json!("panic"));
+                }
                 continue;
             }
         };
@@ -1007,12 +1017,17 @@ fn production_case(ctx: &mut Ctx, rng: &mut Rng, command: bool, stream: &[u8], r
                 );
             } else {
                 for (e, (t, b)) in events.iter().zip(flat.iter()) {
-                    let is_raw = e.starts_with("Raw(");
-                    if is_raw != t.is_none() || (is_raw && *e != format!("Raw({b:?})")) {
+                    // unrecognised bytes must surface as the Raw event carrying exactly these bytes
+                    let want = if command {
+                        format!("{:?}", surf_n_term::TerminalCommand::Raw(b.clone()))
+                    } else {
+                        format!("{:?}", surf_n_term::TerminalEvent::Raw(b.clone()))
+                    };
+                    if t.is_none() && *e != want {
                         ctx.out.fail(
                             &format!("{name}: raw event differs from the unrecognised bytes"),
                             input_json.clone(),
-                            json!(show_item(*t, b)),
+                            json!(want),
                             json!(e),
                         );
                         break;
@@ -1041,7 +1056,7 @@ fn production_case(ctx: &mut Ctx, rng: &mut Rng, command: bool, stream: &[u8], r
             }
         }
         if ctx.out.evaluations % 499 == 1 {
-            ctx.out.sample(json!({"decoder": name, "request": req, "impl": run.answer(), "events": events}));
+            ctx.out.sample(json!({"decoder": name, "request": req, "impl": run.answer_bounds(), "events": events}));
         }
     }
 }
@@ -1204,6 +1219,7 @@ fn replay(ctx: &mut Ctx, rng: &mut Rng, input: &Value, refs: &(RefDfa, RefDfa)) 
     let chunks = input.get("chunks").and_then(|s| s.as_str()).map(parse_chunks);
     match input.get("kind").and_then(|k| k.as_str()).unwrap_or("") {
         "patterns" => {
+            ctx.force_by_decode = input.get("by_decode").and_then(|b| b.as_bool());
             let pats: Vec<Re> = input
                 .get("patterns")
                 .and_then(|p| p.as_array())
@@ -1222,7 +1238,7 @@ fn main() {
     let cfg = Cfg::from_env();
     let out = cfg.out();
     install_abort_hook(&cfg.outdir);
-    let mut ctx = Ctx { out, dfa_serial: 0 };
+    let mut ctx = Ctx { out, dfa_serial: 0, force_by_decode: None };
     let mut rng = Rng::new(cfg.seed);
     let refs = install_production(&mut ctx);
 
@@ -1293,12 +1309,12 @@ fn main() {
     }
 
     // ---- generated
-    let (n_sets, n_inputs, n_streams, n_utf8) = if cfg.thorough { (30000, 8, 50000, 50000) } else { (700, 5, 900, 1200) };
+    let (n_sets, n_inputs, n_streams, n_utf8) = if cfg.thorough { (30000, 8, 40000, 40000) } else { (2000, 5, 2500, 3000) };
     for _ in 0..n_sets {
         let pats = gen_patterns(&mut rng);
         let max = if cfg.thorough { 40 } else { 24 };
         let inputs: Vec<Vec<u8>> = (0..n_inputs).map(|_| gen_input(&mut rng, max)).collect();
-        let ex3 = cfg.thorough && rng.chance(1, 10);
+        let ex3 = cfg.thorough && rng.chance(1, 20);
         pattern_case(&mut ctx, &mut rng, &pats, &inputs, None, ex3);
     }
     for i in 0..n_streams {
